@@ -519,6 +519,8 @@ func runC16(r *Run) {
 	checkRevertScalars(r, m)
 	checkIndexMaps(r, m)
 	checkAdapterSpecifics(r)
+	checkSuicideZeroes(r, "C16.suicide")
+	checkDirtyCount(r, "C16.dirtycount")
 }
 
 // ---------------------------------------------------------------------------------------------
